@@ -1153,7 +1153,8 @@ def _apply_rolling(
 
     if values_are_times:
         if operation == "diff":
-            result = result.view("m8[ns]")
+            # differences keep the time unit of the input
+            result = result.view(f"m8[{np.datetime_data(orig_dtype)[0]}]")
         else:
             result = result.view(orig_dtype)
 
